@@ -6,7 +6,7 @@ from ..distcases import C13_DIRECTED, c13_length_for, run_c13_case
 
 ID = 'C13'
 LEVEL = 'exploration'
-QUICK_SCALE = 5      # the quick tier was enlarged by this factor after MIN_OBS['quick'] was measured
+QUICK_SCALE = 10      # the quick tier was enlarged by this factor after MIN_OBS['quick'] was measured
 RULE = (
     "One case = one simulated world: scripted server, the real client 'me' logged in, 3-4 scripted peers, one "
     "sequence of <= 10 abstract events, each applied by one harness function: potential_parents(subset) pushed by "
@@ -73,7 +73,7 @@ MIN_OBS = {
                  'position_checks': 70000, 'parents_set': 6000, 'stalls_with_suspended_writes': 1500},
 }
 SHARD_TIMEOUT = {'quick': 600, 'thorough': 5400}
-N_RANDOM = {'quick': 2000, 'thorough': 400000}
+N_RANDOM = {'quick': 4000, 'thorough': 400000}
 WHAT_FAILS = {
     'parent-is-also-child': 'the parent peer object is also in the list of children',
     'parent-or-child-connection-dead': 'parent or child whose connection is not open at a quiescent moment',
